@@ -119,7 +119,7 @@ def gen_single_index(g, maxn):
             g.add("ix", "c05_ix_single", "p_a3_i", "packed:array_part", [n], part, "single", 0)
             g.add("ix", "c05_ix_single", "p_a3_l", "packed:array_part_ll", [n], part, "single", 0)
             g.add("ix", "c05_ix_dyn", "d_a3", "list:array_part", [n], part, "single", 0, dyn=True)
-            g.add("ix", "c05_ix_dyn", "d_a3_l", "list:array_part_ll", [n], part, "single", 2, dyn=True)
+            g.add("ix", "c05_ix_dyn", "d_a3_l", "list:array_part_ll", [n], part, "single", 0, dyn=True)
         for (s, e, st) in M.axis_grid("a2", n):
             part = [("R", s, e, st)]
             g.add("ix", "c05_ix_single", "p_a2_i", "packed:array_part", [n], part, "single", 0)
@@ -551,7 +551,7 @@ def run(ctx):
         gen_huge(g, rng, 0)
     else:
         gen_multi2_exhaustive(g, exts_ix=(1, 2, 3), exts_v=(1, 2))
-        gen_multi_sampled(g, rng, per_ix=1500, per_v=500, maxext=5)
+        gen_multi_sampled(g, rng, per_ix=2500, per_v=800, maxext=5)
         gen_dyn_multi_sampled(g, rng, per_ix=800, per_v=800, maxext=5)
         gen_huge(g, rng, 20000)
     pb = probe_variadic(ctx, g, maxn)
@@ -772,8 +772,15 @@ def run(ctx):
     ctx.set("cases_by_level_family_mode", {k: {"cases": v[0], "failing": v[1]} for k, v in sorted(stats.items())})
     ctx.set("failing_cases", nfail)
     ctx.set("failing_axis_classes", len(fail_classes))
+    ctx.set("failing_axis_class_list", sorted(fail_classes))
     ctx.set("axis_classes_total", len({M.axis_class(k[1], k[2], k[3], k[4]) for k in REF if k[0] == "R"}))
     ctx.set("failures_attributed", attributed)
+    fams = {}
+    for k in ctx.viol:
+        f = k.split(":")[1]
+        fams[f] = fams.get(f, 0) + 1
+    ctx.set("violation_keys_by_kind", fams)
+    ctx.set("all_violation_keys", sorted(ctx.viol))
     ctx.set("encoding_cases_compared_with_reference", compared)
     ctx.set("hook_events", hacc.summary())
     ctx.set("not_generated", ["index with fewer parts than axes and no ellipsis (a[1:3] on a 2-d array leaves the trailing extents 0: unchecked precondition)",
